@@ -124,6 +124,12 @@ def gen_read(rng, ads, prefix):
         for j in rng.sample(cand, min(len(cand), rng.randint(1, 3))):
             rl[j] = "N"
         read = "".join(rl)
+    elif r < 0.27 and read:
+        # other characters that are not N: IUPAC codes, a no-call dot; they count as mismatches like any wrong base
+        rl = list(read)
+        for j in rng.sample(range(len(rl)), min(len(rl), rng.randint(1, 2))):
+            rl[j] = rng.choice("RYKMSWBDHVX.-r")
+        read = "".join(rl)
     return read
 
 
